@@ -438,6 +438,9 @@ struct SctpInner {
     forward_tsn_pending: AtomicBool,
     forward_tsn_streams: Mutex<Vec<(u16, u16)>>,
     has_pr_sctp: AtomicBool,
+    // Set while an INIT has been answered and its COOKIE ECHO is still to come:
+    // no DATA may be sent in that window (RFC 4960 5.1).
+    awaiting_cookie_echo: AtomicBool,
 
     // Tail Loss Probe (TLP, RFC 8985-inspired): when in-flight data is
     // unacknowledged for longer than a Probe Timeout (PTO), retransmit the
@@ -884,6 +887,7 @@ impl SctpTransport {
             forward_tsn_pending: AtomicBool::new(false),
             forward_tsn_streams: Mutex::new(Vec::new()),
             has_pr_sctp: AtomicBool::new(false),
+            awaiting_cookie_echo: AtomicBool::new(false),
             last_send_or_ack: Mutex::new(Instant::now()),
             tlp_probe_sent: AtomicBool::new(false),
             stats_tlp_probes: AtomicU64::new(0),
@@ -1744,6 +1748,11 @@ impl SctpInner {
         }
         let retransmitted = initiate_tag != 0
             && self.remote_verification_tag.load(Ordering::SeqCst) == initiate_tag;
+        // Until the COOKIE ECHO arrives we only know the peer's tag; DATA sent now
+        // would use up TSNs, and the answer to a retransmitted INIT (our first INIT
+        // ACK lost) would then name an initial TSN beyond chunks already sent - the
+        // peer would take them for duplicates and acknowledge them unseen.
+        self.awaiting_cookie_echo.store(true, Ordering::SeqCst);
 
         self.peer_rwnd.store(a_rwnd, Ordering::SeqCst);
         let init_ssthresh = (a_rwnd as usize).max(SSTHRESH_MIN);
@@ -2337,6 +2346,8 @@ impl SctpInner {
             debug!("SCTP: Invalid or expired cookie, ignoring COOKIE-ECHO");
             return Ok(());
         }
+
+        self.awaiting_cookie_echo.store(false, Ordering::SeqCst);
 
         // Send COOKIE ACK
         let tag = self.remote_verification_tag.load(Ordering::SeqCst);
@@ -3664,6 +3675,8 @@ impl SctpInner {
             // start and the SCTP handshake) stays queued until then instead of
             // leaving with tag 0 and a TSN the handshake will overwrite.
             let peer_known = self.remote_verification_tag.load(Ordering::SeqCst) != 0;
+            // ... and, on the side that answered an INIT, the COOKIE ECHO has arrived.
+            let awaiting_cookie_echo = self.awaiting_cookie_echo.load(Ordering::SeqCst);
             // The peer's window is used up by everything it has not acknowledged, in
             // flight or not: a T3 expiry takes chunks out of flight_size (they wait for
             // their retransmission) but not out of the peer's buffer budget. Judging
@@ -3685,7 +3698,7 @@ impl SctpInner {
             let window_limited;
             {
                 let mut outbound = self.outbound_queue.lock();
-                while peer_known && budget > 0 && batch.len() < 1000 {
+                while peer_known && !awaiting_cookie_echo && budget > 0 && batch.len() < 1000 {
                     if let Some(chunk_info) = outbound.pop_front() {
                         let chunk_wire_size = CHUNK_HEADER_SIZE + 12 + chunk_info.payload.len();
                         let padded = chunk_wire_size + (4 - (chunk_wire_size % 4)) % 4;
